@@ -278,6 +278,7 @@ func c04SSA(c *core.Ctx, info *c04Info) {
 	s.roundRobin(prog)
 	s.elements(prog)
 	s.purity(prog)
+	s.sharedObjects(prog)
 }
 
 // classify records what is done with the address of a tracked field.
